@@ -15,7 +15,7 @@ BLK = 512
 class StepClient:
     """One transfer driven step by step; every step = (await the reply to my previous datagram) then (send my next datagram)."""
 
-    def __init__(self, cid, role, server, nblocks, tag):
+    def __init__(self, cid, role, server, nblocks, tag, src_ip=None, src_port=0):
         # role may carry a negotiated block size: "up@1024"
         self.blk = BLK
         if "@" in role:
@@ -26,7 +26,7 @@ class StepClient:
         self.name = f"{tag}_c{cid}.bin"
         self.content = N.keyed_content(f"{tag}-{cid}-{role}", (nblocks - 1) * self.blk + min(37 + cid, self.blk - 1))
         self.n = nblocks
-        self.sock = N._sock(server.family, timeout=2.0)
+        self.sock = N._sock(server.family, timeout=2.0, ip=src_ip, port=src_port)
         self.peer = None
         self.sent = 0           # number of my datagrams sent
         self.got = bytearray()  # download
@@ -140,10 +140,21 @@ def interleavings(counts):
     yield from rec(list(counts), [])
 
 
-def run_schedule(v, srv, sb, cfg, roles, nblocks, order, tag, intruder_plan=None, rng=None):
+def run_schedule(v, srv, sb, cfg, roles, nblocks, order, tag, intruder_plan=None, rng=None, same_port=False):
     if v.enough():
         return [], []
-    clients = [StepClient(i, r, srv, nblocks, tag) for i, r in enumerate(roles)]
+    if same_port and srv.family == socket.AF_INET:
+        # endpoints that differ only in their IP address: 127.0.0.1:P, 127.0.0.2:P, ...
+        first = StepClient(0, roles[0], srv, nblocks, tag, src_ip="127.0.0.1")
+        port = first.sock.getsockname()[1]
+        clients = [first]
+        for i, r in enumerate(roles[1:], start=1):
+            try:
+                clients.append(StepClient(i, r, srv, nblocks, tag, src_ip=f"127.0.0.{i + 1}", src_port=port))
+            except OSError:
+                clients.append(StepClient(i, r, srv, nblocks, tag))
+    else:
+        clients = [StepClient(i, r, srv, nblocks, tag) for i, r in enumerate(roles)]
     for c in clients:
         if c.role == "down":
             write(os.path.join(sb["srv"], c.name), c.content)
@@ -168,8 +179,23 @@ def run_schedule(v, srv, sb, cfg, roles, nblocks, order, tag, intruder_plan=None
 def intrude(v, srv, clients, what, cfg, replay):
     """an endpoint that owns no transfer sends a well-formed non-request packet"""
     kind, target = what
+    if target == "listen-same-port":
+        # a foreign endpoint that shares only the PORT number with a client that owns a transfer
+        victim_port = next((c.sock.getsockname()[1] for c in clients if c.peer), None)
+        target = "listen"
+        if victim_port and srv.family == socket.AF_INET:
+            try:
+                s = N._sock(srv.family, timeout=3.0, ip="127.0.0.9", port=victim_port)
+            except OSError:
+                s = N._sock(srv.family, timeout=3.0)
+        else:
+            s = N._sock(srv.family, timeout=3.0)
+        return _intrude_with(v, srv, clients, kind, target, cfg, replay, s)
+    return _intrude_with(v, srv, clients, kind, target, cfg, replay, N._sock(srv.family, timeout=3.0))
+
+
+def _intrude_with(v, srv, clients, kind, target, cfg, replay, s):
     # one attempt with a generous timeout: a second attempt could mask a reply that is only missing the first time
-    s = N._sock(srv.family, timeout=3.0)
     try:
         pkt = {"ACK": N.enc_ack(1), "DATA": N.enc_data(1, b"intruder payload"), "ERROR": N.enc_error(0, b"intruder"), "OACK": N.enc_oack([("blksize", 8)]), "ACK2": N.enc_ack(2), "DATA2": N.enc_data(2, b"x" * 512)}[kind]
         if target == "listen":
@@ -236,9 +262,17 @@ def run(tier):
                 if not srv.alive():
                     v.note_inconclusive(f"{cfg}: server died: {srv.log_tail(300)}")
                     break
+            # endpoints are (address, port) pairs: two clients with the same port number on different loopback addresses
+            for roles in (("down", "down"), ("down", "up"), ("up", "up")):
+                for order in interleavings([4, 4]):
+                    tagn += 1
+                    evaluations += 1
+                    run_schedule(v, srv, sb, cfg, roles, 3, order, f"p{tagn}", same_port=True)
+                    schedules.add((cfg, "same-port", roles, order))
+            classes[f"same-port-different-address:{cfg}"] = 210
             # intruders at every position of a K=2 schedule
             for kind in ("ACK", "DATA", "ERROR", "OACK"):
-                for target in (("listen",) if single else ("listen", "transfer-port")):
+                for target in (("listen", "listen-same-port") if single else ("listen", "transfer-port", "listen-same-port")):
                     for pos in range(0, 8):
                         tagn += 1
                         evaluations += 1
